@@ -4,6 +4,9 @@
 (*   Singles  : every entry point x every argument slot x every string of length <= MaxLen over the slot's   *)
 (*              alphabet ({x|v, ':', SP, CR, LF, NUL}) and one 67-byte hostile string, the other slots        *)
 (*              holding a benign letter;                                                                      *)
+(*   Letters  : every name-like slot x every name string <= LetterLen (+ hostile names) starting with the     *)
+(*              letter, with that first letter replaced by each of a c d e h k m p r s t u w (the arms of the   *)
+(*              first-byte dispatch in setSpecialHeader / IsBadTrailer / Cookie.ParseBytes);                    *)
 (*   Specials : every key/value entry point x every field name the library treats specially x every value    *)
 (*              string of length <= SpecLen (this is how Set("Cookie", ...) / Set("Trailer", ...) etc. reach   *)
 (*              their dedicated stores);                                                                      *)
@@ -16,7 +19,7 @@
 (* (known finding C05-reqcookie-raw; computed here so that the signature is part of the case).                *)
 EXTENDS HeaderWrite, Json, IOUtils, SequencesExt
 
-CONSTANTS MaxLen, SpecLen, NoneLen, PairAll, PairHostile, PartnerAll
+CONSTANTS MaxLen, SpecLen, NoneLen, PairAll, PairHostile, PartnerAll, LetterLen
 
 Roles(e) == EntryTable[e].roles
 \* SubSeq(f, 1, n) turns the function into a plain tuple (cheap to compare and to serialise)
@@ -49,6 +52,15 @@ RoleSet == {"n", "v"}
 
 SinglesOf(r) == {<<WithArg(sl[1], sl[2], x)>> : sl \in Slots(r), x \in StrN[r][MaxLen] \cup {Tup(Long(r))}}
 Benigns == {<<BenignCall(e)>> : e \in Entries}
+\* First-letter variants of name-like arguments.  The code dispatches on the first byte of a field name
+\* (`switch key[0] | 0x20` in header.go:setSpecialHeader, trailer.go:IsBadTrailer, cookie.go:ParseBytes), so a
+\* single name letter reaches only the arm-less default path.  Every name string (<= LetterLen, + the hostile
+\* names) that starts with the letter is repeated with its first byte replaced by each letter that has an arm:
+\* a c d e h k m p r s t u w  (x, the default letter, has none).  The value letter v stays disjoint from all.
+FirstLetters == {97, 99, 100, 101, 104, 107, 109, 112, 114, 115, 116, 117, 119}
+LetterFirst == {y \in StrN["n"][LetterLen] \cup Hostile("n") : y # << >> /\ y[1] = LetterN}
+Relettered == {Tup([i \in DOMAIN y |-> IF i = 1 THEN c ELSE y[i]]) : y \in LetterFirst, c \in FirstLetters}
+LetterSingles == {<<WithArg(sl[1], sl[2], x)>> : sl \in Slots("n"), x \in Relettered}
 SpecialsOf(tgt) == {<<[e |-> e, a |-> <<nm, x>>]>> : e \in {f \in KVEntries : EntryTable[f].tgt = tgt},
                                                   nm \in SpecialNames(tgt), x \in StrN["v"][SpecLen] \cup Hostile("v")}
 NoBodyOf(r) == {<<WithArg(sl[1], sl[2], x)>> : sl \in Slots(r), x \in StrN[r][NoneLen] \cup Hostile(r)}
@@ -95,6 +107,7 @@ TgtSeq == <<"req", "resp", "ctx">>
 RECURSIVE Cat(_)
 Cat(ss) == IF ss = << >> THEN << >> ELSE ss[1] \o Cat(Tail(ss))
 SeqSingles  == Progs(Benigns, "stream") \o Progs(SinglesOf("n"), "stream") \o Progs(SinglesOf("v"), "stream")
+               \o Progs(LetterSingles, "stream")
 SeqSpecials == Cat([k \in 1 .. 3 |-> Progs(SpecialsOf(TgtSeq[k]), "stream")])
 SeqPairs    == Cat([k \in 1 .. 3 |-> Progs(PairsHB(TgtSeq[k]), "stream") \o Progs(PairsBH(TgtSeq[k]), "stream")
                                       \o Progs(PairsHH(TgtSeq[k]), "stream")])
